@@ -246,15 +246,18 @@ package ast
 
 //@ -- StaticCheck of a non-terminal: its interpreter's checker (if it has one) is asked once, with this node, and the
 //@ -- schema it returns is recorded on the node; an error aborts without recording
+//@ ghost GhostSchemaAfterCheck interface{}
 //@ func (n *NonTerminalNode) StaticCheck(userCtx interface{}) (err parsley.Error)
 //@   props C13
 //@   logs parsley.StaticChecker.StaticCheck
 //@   requires n != nil
+//@   ghost_at call:StaticCheck#1 GhostSchemaAfterCheck = n.schema
+//@   ensures  [error-records-nothing;C13] old(n.interpreter != nil && typeis[parsley.StaticChecker](n.interpreter)) && err != nil ==> n.schema == GhostSchemaAfterCheck
 //@   ensures  err != nil ==> err.Pos() >= 0
 //@   ensures  [checker;C13] old(n.interpreter != nil && typeis[parsley.StaticChecker](n.interpreter)) ==> ncalls() == 1 && callarg[interface{}](1, 1) == userCtx && callarg[parsley.NonTerminalNode](1, 2) == parsley.NonTerminalNode(n) && same(err, callres[parsley.Error](1, 1))
 //@   ensures  [schema;C13] old(n.interpreter != nil && typeis[parsley.StaticChecker](n.interpreter)) && err == nil ==> n.schema == callres[interface{}](1, 0)
 //@   ensures  [no-checker;C13] old(n.interpreter == nil || !typeis[parsley.StaticChecker](n.interpreter)) ==> ncalls() == 0 && err == nil && n.schema == old(n.schema)
-//@   assigns  fields[parsley.Node]()
+//@   assigns  fields[parsley.Node](), GhostSchemaAfterCheck
 
 //@ functype ast.InterpreterFunc(userCtx interface{}, node parsley.NonTerminalNode) (v interface{}, err parsley.Error)
 //@   include parsley.Interpreter.Eval
